@@ -21,7 +21,113 @@ type c04Case struct {
 	Script vScript `json:"script"`
 }
 
+// genRepeatAfterWipe builds the "same history twice" template: a short history of
+// writes, deletes and reads in one time slot, then a wipe of that slot, then the same
+// history again (same timestamps, delete bounds and read ranges, new values). Anything
+// that is cached or remembered by timestamp across the wipe shows up as a wrong read in
+// the second round.
+func genRepeatAfterWipe(t *rapid.T) vScript {
+	sch := genSchema(t, genOpts{MaxGroups: 2, MaxDataPerGroup: 3})
+	type grp struct {
+		idx  uint32
+		data []uint32
+	}
+	var groups []grp
+	for _, c := range sch.Chans {
+		if c.IsIndex {
+			groups = append(groups, grp{idx: c.Key})
+		} else {
+			groups[len(groups)-1].data = append(groups[len(groups)-1].data, c.Key)
+		}
+	}
+	g := groups[rapid.IntRange(0, len(groups)-1).Draw(t, "g")]
+	chans := append([]uint32{g.idx}, g.data...)
+	slot := int64(rapid.IntRange(1, 10).Draw(t, "slot"))
+	var ts []int64
+	cur := slot*vSlot + int64(rapid.IntRange(0, 5).Draw(t, "soff"))
+	for n := rapid.IntRange(3, 12).Draw(t, "n"); n > 0; n-- {
+		ts = append(ts, cur)
+		cur += int64(rapid.IntRange(1, 12).Draw(t, "dt"))
+	}
+	lo, hi := ts[0], ts[len(ts)-1]+1
+	bound := func(label string) int64 {
+		if rapid.IntRange(0, 2).Draw(t, label+"_k") == 0 {
+			return ts[rapid.IntRange(0, len(ts)-1).Draw(t, label+"_i")] + int64(rapid.IntRange(0, 1).Draw(t, label+"_o"))
+		}
+		return int64(rapid.IntRange(int(lo)-2, int(hi)+2).Draw(t, label))
+	}
+	rng := func(label string) (int64, int64) {
+		a, b := bound(label+"a"), bound(label+"b")
+		if a > b {
+			a, b = b, a
+		}
+		if a == b {
+			b++
+		}
+		return a, b
+	}
+	// the history template
+	var cuts []int
+	for i := 1; i < len(ts); i++ {
+		if rapid.IntRange(0, 3).Draw(t, "cut") == 0 {
+			cuts = append(cuts, i)
+		}
+	}
+	var body []vOp
+	for k := rapid.IntRange(1, 3).Draw(t, "nops"); k > 0; k-- {
+		a, b := rng("r")
+		var keys []uint32
+		for _, c := range chans {
+			if rapid.IntRange(0, 2).Draw(t, "rk") > 0 {
+				keys = append(keys, c)
+			}
+		}
+		if len(keys) == 0 {
+			keys = chans[len(chans)-1:]
+		}
+		if rapid.IntRange(0, 1).Draw(t, "isdel") == 0 {
+			dk := chans
+			if len(g.data) > 0 && rapid.IntRange(0, 1).Draw(t, "donly") == 0 {
+				dk = g.data
+			}
+			body = append(body, vOp{K: "delete", A: a, B: b, Keys: dk})
+		}
+		body = append(body, vOp{K: "read", A: a, B: b, Keys: keys})
+		a2, b2 := rng("s")
+		body = append(body, vOp{K: "read", A: a2, B: b2, Keys: keys})
+	}
+	round := func(w int) []vOp {
+		ops := []vOp{{K: "open", W: w, Start: ts[0], Chans: chans, Persist: -1, Sync: true}}
+		prev := 0
+		for _, c := range append(append([]int(nil), cuts...), len(ts)) {
+			ops = append(ops, vOp{K: "write", W: w, TS: append([]int64(nil), ts[prev:c]...)})
+			prev = c
+		}
+		ops = append(ops, vOp{K: "close", W: w})
+		return append(ops, body...)
+	}
+	var ops []vOp
+	ops = append(ops, round(0)...)
+	rounds := rapid.IntRange(1, 2).Draw(t, "rounds")
+	for r := 1; r <= rounds; r++ {
+		ops = append(ops, vOp{K: "delete", A: lo, B: hi, Keys: chans})
+		if rapid.IntRange(0, 2).Draw(t, "gcb") == 0 {
+			ops = append(ops, vOp{K: "gc"})
+		}
+		ops = append(ops, round(r)...)
+	}
+	ops = append(ops, vOp{K: "read", A: lo - 1, B: hi + 1, Keys: chans})
+	return vScript{Schema: sch, Ops: ops}
+}
+
 func genC04(t *rapid.T) c04Case {
+	if rapid.IntRange(0, 4).Draw(t, "template") == 0 {
+		sc := genRepeatAfterWipe(t)
+		if rapid.Bool().Draw(t, "gcth0") {
+			sc.Schema.GCThresh = 0.0000001
+		}
+		return c04Case{Script: sc}
+	}
 	sc := genScript(t, c04Opts)
 	switch rapid.IntRange(0, 2).Draw(t, "gcth") {
 	case 0:
@@ -87,14 +193,34 @@ func c04Step(r *vRun, i int, op vOp) (bool, *drv.Failure) {
 		// created by file rollover starts at the previous domain's end). The offset
 		// computation then rewrites the domain's start to 0 or its end to 1, after which
 		// anything may fail, so every later failure of this run carries the prefix.
+		// every channel of the index groups the request touches (a bound that falls into
+		// the sample-free start of a sibling's domain desynchronises index and data)
+		groupKeys := map[uint32]bool{}
 		for _, k := range op.Keys {
-			if os.Getenv("VERIF_DEBUG") != "" {
-				fmt.Printf("DEBUG pre-delete layout ch %d: %+v\n", k, pre[k])
+			for _, c := range r.sch.Chans {
+				if c.Index == r.chans[k].Index {
+					groupKeys[c.Key] = true
+				}
 			}
-			for _, d := range pre[k] {
+		}
+		for _, c := range r.sch.Chans {
+			k := c.Key
+			if !groupKeys[k] {
+				continue
+			}
+			lay := pre[k]
+			if lay == nil {
+				lay = r.layout(k)
+			}
+			if os.Getenv("VERIF_DEBUG") != "" {
+				fmt.Printf("DEBUG pre-delete layout ch %d: %+v\n", k, lay)
+			}
+			for _, d := range lay {
 				first := before.Read(k, d.Start, d.End)
 				gap := len(first) > 0 && first[0].TS > d.Start
-				if gap && ((d.Start < op.A && op.A < d.End) || (d.Start < op.B && op.B < d.End)) {
+				inDomain := (d.Start < op.A && op.A < d.End) || (d.Start < op.B && op.B < d.End)
+				inGap := gap && ((d.Start <= op.A && op.A < first[0].TS) || (d.Start <= op.B && op.B < first[0].TS))
+				if gap && (inDomain || inGap) {
 					r.taint = "delete-cut-inside-domain-with-leading-gap"
 					r.st.Probe("delete_cut_in_leading_gap_domain")
 				}
